@@ -159,6 +159,30 @@ RipsBarsFull(n, G, dtop, p) ==
   IN  [F |-> F, q |-> q, bars |-> BarsS(CellSeq(q, p), p)]
 DiagramFromFull(full, dmax) == DiagramUpTo(full.F, full.q, full.bars, dmax)
 
+(* Dimension 0 is single linkage: the finite deaths are the weights of the edges that Kruskal's algorithm keeps   *)
+(* (a minimum spanning forest: edges in any order of increasing weight, an edge kept when its ends lie in         *)
+(* different components), the essential classes are its components.  ThSingleLinkage is checked on every bounded  *)
+(* case; the harness uses the right-hand side to judge dimension 0 of clouds with hundreds of points, where the    *)
+(* column reduction in TLC is out of reach.                                                                       *)
+RECURSIVE KruskalFrom(_, _, _)
+KruskalFrom(es, comp, acc) ==
+  IF es = <<>> THEN acc
+  ELSE LET e == Head(es)
+           a == CHOOSE x \in e.e : TRUE
+           b == CHOOSE x \in e.e : x # a
+       IN  IF comp[a] = comp[b] THEN KruskalFrom(Tail(es), comp, acc)
+           ELSE KruskalFrom(Tail(es), [v \in DOMAIN comp |-> IF comp[v] = comp[b] THEN comp[a] ELSE comp[v]], Append(acc, e.w))
+MSTWeights(n, G) ==
+  KruskalFrom(SetToSortSeq({[e |-> x, w |-> G[x]] : x \in DOMAIN G}, LAMBDA x, y : x.w < y.w \/ (x.w = y.w /\ SortedSeq(x.e)[1] * n + SortedSeq(x.e)[2] < SortedSeq(y.e)[1] * n + SortedSeq(y.e)[2])),
+              [v \in 0..(n - 1) |-> v], <<>>)
+ThSingleLinkage(n, G, p) ==
+  LET dg  == {x \in RipsDiagramAlg(n, G, 0, p) : x.dim = 0}
+      mst == MSTWeights(n, G)
+      cnt(w) == Cardinality({i \in DOMAIN mst : mst[i] = w})
+  IN  /\ \A x \in dg : x.b = 0 /\ (IF x.d = INFV THEN x.n = n - Len(mst) ELSE x.n = cnt(x.d))
+      /\ \A i \in DOMAIN mst : mst[i] > 0 => \E x \in dg : x.d = mst[i]
+      /\ (n - Len(mst) > 0) => \E x \in dg : x.d = INFV
+
 (* number of output_dim calls: dimensions 0..Hi(0, Lo(dmax, n-2)) *)
 TopDim(n, dmax) == Hi(0, Lo(dmax, n - 2))
 NumSimplices(n, G, dmax) == Cardinality(CliquesAlg(n, G, dmax + 1))
